@@ -7,7 +7,11 @@ V = os.path.normpath(os.path.join(os.path.dirname(os.path.abspath(__file__)), ".
 LEVEL_NOTE = ("Trusted base: Lean 4.33 kernel (axioms propext, Classical.choice, Quot.sound only; audited by #print axioms "
               "on every run; no sorry/native_decide/bv_decide/own axioms); the Spec transcriptions of Annex 10 / DO-260B / "
               "Doc 9871; the tie = table translator harness/gen_tables.py + correspondence harness + compiled driver; "
-              "modelled not verified: CPython/numpy primitives, IEEE rounding/libm, time, I/O. ")
+              "modelled not verified: CPython/numpy primitives, IEEE rounding/libm, time, I/O. "
+              "Second tie where listed (tie_modules in the evidence): harness/py2lean.py regenerates Lean definitions from the "
+              "current source text of the straight-line functions on every run; lean/PyModeS/Tie/*.lean prove generated definition = "
+              "hand model for every well-formed frame; the translator and the Python-primitive semantics (Py/Val.lean) are validated "
+              "by running the generated definitions against the real functions (gendriver). ")
 
 CLAIMS = {
     "C07": dict(
@@ -145,7 +149,7 @@ def main():
         ))
     m = dict(
         version=1,
-        setup_cmd="/venv/bin/python harness/gen_tables.py && cd lean && lake build",
+        setup_cmd="/venv/bin/python harness/gen_tables.py && /venv/bin/python harness/py2lean.py && cd lean && lake build PyModeS driver gendriver PyModeS.Tie.All",
         hooks=dict(guard="PYMODES_VERIF", enable="no source hooks are needed; the harness sets PYMODES_VERIF=1 and imports /repo/src in-process",
                    baseline_off_cmd="cd /repo && /venv/bin/python -m pytest -ra -q -p no:cacheprovider --timeout=900 --continue-on-collection-errors",
                    source_commits=[], add_only=True),
